@@ -17,7 +17,7 @@ RULE = ('quick: every outline AST with <=4 nodes and nesting <=2 over {step, if/
         'the script prefix actually consumed (exhaustive for that scope); thorough adds 5-node ASTs (sampled) and random ASTs to depth 4 with '
         'scripts to length 12; non-trivial when at least one predicate or >=2 calls were made')
 ASSUMPTIONS = ['predicates return real booleans', 'ToContext returns are C10\'s business', 'interpreter written from the property statement']
-REQUIRED = ['runs', 'ended/return', 'ended/value', 'ended/end', 'nodes/if', 'nodes/while', 'nodes/ret', 'calls_compared', 'falsy_stop_values', 'steps_registering_awaitables', 'value_with_awaitable', 'described_first']
+REQUIRED = ['runs', 'ended/return', 'ended/value', 'ended/end', 'nodes/if', 'nodes/while', 'nodes/ret', 'calls_compared', 'falsy_stop_values', 'steps_registering_awaitables', 'value_with_awaitable', 'described_first', 'required_output_missing', 'decorated_steps_called']
 EXHAUSTIVE = {'quick': True, 'thorough': False}
 BOUNDS = {'quick': 'ASTs <=4 nodes depth<=2, predicate scripts <=4, exhaustive after de-duplication', 'thorough': '+5-node ASTs sampled, 4000 random ASTs depth<=4'}
 STOPVALS = [0, '', False, 7]
@@ -56,6 +56,9 @@ def gen_cases(tier, seed):
                     if how == 'value' or len(seen) % 8 == 0:
                         # the same run with every step also registering an awaitable through to_context()
                         yield {'ast': ast, 'preds': p[:np] if np <= len(p) else p, 'rets': r[:ns], 'awaits': True}
+                    if len(seen) % 4 == 1:
+                        # the same run in a chain that declares a required output nobody emits: unsuccessful, same result
+                        yield {'ast': ast, 'preds': p[:np] if np <= len(p) else p, 'rets': r[:ns], 'must': True}
     if tier == 'thorough':
         shapes5 = outlines.shapes(5, 2)
         for shape in rng.sample(shapes5, 3000):
@@ -78,7 +81,9 @@ def run_case(case):
     obs = {'runs': 1, 'ended': {how: 1}, 'nodes': {}, 'calls_compared': 0, 'falsy_stop_values': 0, 'described_first': 0}
     if how == 'budget':
         return {'viol': [], 'obs': obs, 'inconclusive': 'interpreter-budget', 'key': case, 'nontrivial': False}
-    cls = outlines.outline_class(ast)
+    cls = outlines.outline_class(ast, must=bool(case.get('must')))
+    obs['required_output_missing'] = int(bool(case.get('must')))
+    obs['decorated_steps_called'] = sum(1 for t in exp_trace if t in outlines.DECORATED)
     viol = []
     V = judges.V
     if case.get('describe'):
